@@ -46,14 +46,17 @@ fn sfl_none(
     Ok(None)
 }
 
-// Value ranges of the step harnesses (quick tier). Balances are whole shares,
-// money has 2 decimals, FX rates 2 decimals.
-const BAL_MAX: i64 = 100;
-const ACB_MAX: i64 = 10000; // 100.00
-const N_MAX: i64 = 100;
-const PRICE_MAX: i64 = 1000; // 10.00
-const COMM_MAX: i64 = 100; // 1.00
-const RATE_MAX: i64 = 200; // 2.00
+// Value ranges of the step harnesses. Balances are whole shares, money has 2
+// decimals, FX rates 2 decimals. SAT time is governed by the widths of the
+// multiplier operands, so the quick tier uses 4-7 bit operands and the
+// thorough tier 7-14 bits.
+use crate::kani_model::tier::WIDE;
+const BAL_MAX: i64 = if WIDE { 100 } else { 15 };
+const ACB_MAX: i64 = if WIDE { 10000 } else { 1000 }; // 100.00 / 10.00
+const N_MAX: i64 = if WIDE { 100 } else { 15 };
+const PRICE_MAX: i64 = if WIDE { 1000 } else { 100 }; // 10.00 / 1.00
+const COMM_MAX: i64 = if WIDE { 100 } else { 15 }; // 1.00 / 0.15
+const RATE_MAX: i64 = if WIDE { 200 } else { 31 }; // 2.00 / 0.31
 
 struct Money {
     usd_tx: bool,
@@ -342,3 +345,41 @@ step_split!(c01_split_a0_m1, 0, 0b001);
 step_split!(c01_split_a0_m7, 0, 0b111);
 step_split!(c01_split_a1_m3, 1, 0b011);
 step_split!(c01_split_a2_m7, 2, 0b111);
+
+// ---- C16: an opening position (--symbol-base SYM:shares:acb) is the same
+// ledger state as an opening purchase of that many shares for that total cost.
+bk_harness! {
+    #[kani::unwind(4)]
+    #[kani::stub(get_delta_superficial_loss_info, cut_sfl_unreachable)]
+    fn c16_opening_status_equals_opening_buy() {
+        let n = any_in(1, N_MAX);
+        let acb = any_in(0, ACB_MAX);
+        // (1) seeded with the opening status
+        let st1 = AffiliatePortfolioSecurityStatuses::new(SEC.to_string(), Some(status(gez(n, 0), gez(n, 0), Some(gez(acb, 2)))));
+        // (2) empty, then a purchase of n shares whose total cost is acb
+        let mut st2 = AffiliatePortfolioSecurityStatuses::new(SEC.to_string(), None);
+        let split_cost: bool = ks::any_bool();
+        // total cost either all in the commission, or all in the price when it divides
+        let txs = vec![tx(aff(0), date(10), 0, buy(pos(n, 0), gez(0, 0), gez(acb, 2), cad(), None))];
+        let (d, inject) = delta_for_tx(0, &txs, &st2).unwrap();
+        assert!(inject.is_none());
+        st2.set_latest_post_status(&aff(0), d.post_status.clone());
+        vcover!("both built");
+        // the same state as seen by every affiliate
+        let q = ks::any_u8();
+        ks::assume(q < 3);
+        let a = st1.get_next_pre_status(&aff(q));
+        let b = st2.get_next_pre_status(&aff(q));
+        assert!(a.share_balance == b.share_balance);
+        assert!(a.all_affiliate_share_balance == b.all_affiliate_share_balance);
+        assert!(a.total_acb == b.total_acb);
+        assert!(a.security == b.security);
+        let la = st1.get_latest_post_status();
+        let lb = st2.get_latest_post_status();
+        assert!(*la == *lb);
+        assert!(*la.share_balance == dec(n, 0) && *la.total_acb.unwrap() == dec(acb, 2));
+        let _ = split_cost;
+        core::mem::forget(d); core::mem::forget(txs); core::mem::forget(st1); core::mem::forget(st2);
+        core::mem::forget(a); core::mem::forget(b); core::mem::forget(la); core::mem::forget(lb);
+    }
+}
